@@ -149,7 +149,10 @@ Seek(p, o) ==
   /\ fresh' = [fresh EXCEPT ![p] = FALSE]
   /\ buf' = [buf EXCEPT ![p] = <<>>]
   /\ Restart(p, o)
-  /\ UNCHANGED <<asked, log, hw, iso, policy, committed, paused, resp, err>>
+  \* C13 "an explicit seek() always takes precedence": an error parked for the position the consumer just left
+  \* (NoOffsetForPartition / OffsetOutOfRange under policy none) is dropped with the buffer
+  /\ err' = [err EXCEPT ![p] = ""]
+  /\ UNCHANGED <<asked, log, hw, iso, policy, committed, paused, resp>>
 
 Pause(p) == paused' = [paused EXCEPT ![p] = TRUE]
             /\ UNCHANGED <<asked, log, hw, iso, policy, committed, pos, rst, fresh, buf, resp, start, delivered, err>>
